@@ -84,10 +84,10 @@ Print Assumptions C13_checker_accepts_model.
    (identifiers [A-Za-z_][A-Za-z0-9_]*, not of the Rust hash form, total length <= INT_MAX) the
    demangler (with the fuel the model uses, 8*len+64) returns the qualified name
      scope::...::last[::last | ::~last | ::operator<op>]   without parameter list.
-   Not covered by the round-trip theorems: the std abbreviations (St, Sa, Ss ...) and substitutions as
-   prefix of the function's own name, expression / pack / negative-literal template arguments, function,
-   array, pointer-to-member, decltype and vendor types, ABI tags, local names, special names, Rust `$`
-   escapes (those are differential-tested only). *)
+   Not covered by the round-trip theorems: substitutions S<seq-id>_ as prefix of the function's own name,
+   expression / pack / negative-literal template arguments, function,
+   array, pointer-to-member, decltype and vendor types, ABI tags, local names, special names, Rust components
+   whose text after the last escape contains `..` or whose escapes are cut off (those are differential-tested only). *)
 Theorem C13_roundtrip_subset_partial : forall d, decl_okb d = true -> demangle (mangle d) = Str (simple_name d).
 Proof. exact roundtrip_simple_name. Qed.
 Print Assumptions C13_roundtrip_subset_partial.
@@ -155,12 +155,16 @@ Print Assumptions C13_roundtrip_examples5.
      _Z N [V][K][R|O] (<source-name> [<targs>])+ [C<n> | D<n> | <operator>] E <type>*
      <targs> ::= I (<type> | L <builtin> <number> E)* E
      <type>  ::= (r|V|K|P|R|O|C|G)* ( <builtin> | S <seq-id> _ [<targs>] | <source-name> [<targs>]
-                                    | N (<source-name> [<targs>] | S <seq-id> _ [<targs>])* E )
+                                    | S [absiod] [<targs>] | S t <source-name> [<targs>]
+                                    | N (<source-name> [<targs>] | S <seq-id> _ [<targs>] | S [tabsiod] [<targs>])* E )
+   and the components of the function's own name may be the std abbreviations S t (std), S a (std::allocator),
+   S b, S s, S i, S o, S d as well
    to any nesting depth: class and function templates over user types, parameters of template class types,
    nested names, substitutions.  Every such name demangles to the qualified name without parameter and
    template-argument lists. *)
 Theorem C13_roundtrip_general_partial : forall quals n id ids enc l m ptxt,
   forallb qual_okb quals = true -> Comps n (id :: ids) enc -> last_okb l = true -> PTys m ptxt ->
+  (needs_class l = true -> ident_okb (last (id :: ids) []) = true) ->
   Z.of_nat (List.length (gmangle quals enc l ptxt)) <= INT_MAX ->
   demangle (gmangle quals enc l ptxt) = Str (gname (id :: ids) l).
 Proof. exact roundtrip_general. Qed.
@@ -174,11 +178,49 @@ Theorem C13_roundtrip_examples6 :
 Proof. exact roundtrip_examples6. Qed.
 Print Assumptions C13_roundtrip_examples6.
 
+(* functions of namespace std outside any class:  _Z St <source-name> [<targs>] <type>*  (std::sort<..>, std::move<..>) *)
+Theorem C13_roundtrip_std_unscoped_partial : forall id n ta m ptxt,
+  ident_okb id = true -> TA n ta -> PTys m ptxt ->
+  Z.of_nat (List.length (std_unscoped_mangle id ta ptxt)) <= INT_MAX ->
+  demangle (std_unscoped_mangle id ta ptxt) = Str (str "std::" ++ id).
+Proof. exact roundtrip_std_unscoped. Qed.
+Print Assumptions C13_roundtrip_std_unscoped_partial.
+
+Theorem C13_roundtrip_examples7 :
+  (exists n m enc ptxt,
+     Comps n [str "std"; str "vector"; str "push_back"] enc /\ PTys m ptxt /\
+     gmangle [] enc LPlain ptxt = str "_ZNSt6vectorIN3app3RecESaIS1_EE9push_backERKS1_" /\
+     gname [str "std"; str "vector"; str "push_back"] LPlain = str "std::vector::push_back") /\
+  (exists n m ta ptxt, TA n ta /\ PTys m ptxt /\
+     std_unscoped_mangle (str "sort") ta ptxt = str "_ZSt4sortIPN3app3RecEEvS2_S2_").
+Proof. exact roundtrip_examples7. Qed.
+Print Assumptions C13_roundtrip_examples7.
+
 (* Rust legacy scheme: _ZN <source-name>+ 17h<16 hex digits> E demangles to the path without the hash *)
 Theorem C13_roundtrip_rust_legacy_partial : forall a cs h, rust_okb a cs h = true ->
   demangle (rust_mangle a cs h) = Str (join_sep (a :: cs)).
 Proof. exact roundtrip_rust. Qed.
 Print Assumptions C13_roundtrip_rust_legacy_partial.
+
+(* Rust legacy names with escapes:  _ZN <component>+ 17h<hash> E  where a component is an identifier or
+     <number> ((<text> ..)* <text> $<code>$)+ <tail>      ($LT$ $GT$ $RF$ $BP$ $LP$ $RP$ $C$ $SP$ $uXX$, `..` -> `::`)  or
+     <number> ((<text> ..)* <text> $<code>$)* (<text> ..)* <text> $u20$as$u20$ <anything>   (` as Trait` dropped, `>` printed);
+   rust2_name is the translated path (leading `_` of a component kept), e.g.
+   _ZN61_$LT$$RF$std..io..stdio..Stdout$u20$as$u20$std..io..Write$GT$9write_fmt17h75c561f414a62159E  ->
+   _<&std::io::stdio::Stdout>::write_fmt *)
+Theorem C13_roundtrip_rust_escapes_partial : forall c cs h, Forall rc_ok (c :: cs) -> hash_okb h = true ->
+  Z.of_nat (List.length (rust2_mangle (c :: cs) h)) <= INT_MAX ->
+  demangle (rust2_mangle (c :: cs) h) = Str (rust2_name (c :: cs)).
+Proof. exact roundtrip_rust2. Qed.
+Print Assumptions C13_roundtrip_rust_escapes_partial.
+
+Theorem C13_roundtrip_examples8 :
+  Forall rc_ok [rc_stdout; RPlain (str "write_fmt")] /\
+  rust2_mangle [rc_stdout; RPlain (str "write_fmt")] (str "h75c561f414a62159") =
+    str "_ZN61_$LT$$RF$std..io..stdio..Stdout$u20$as$u20$std..io..Write$GT$9write_fmt17h75c561f414a62159E" /\
+  rust2_name [rc_stdout; RPlain (str "write_fmt")] = str "_<&std::io::stdio::Stdout>::write_fmt".
+Proof. exact roundtrip_examples8. Qed.
+Print Assumptions C13_roundtrip_examples8.
 
 (* functions outside any namespace: _Z <source-name> <builtin type code>* demangles to the identifier *)
 Theorem C13_roundtrip_unscoped_partial : forall id params, unscoped_okb id params = true ->
